@@ -209,6 +209,37 @@ func (bc *boundsCtx) term(v ssa.Value) lterm {
 			}
 		}
 	}
+	// a value read from a constant package-level table lies between its smallest and largest entry (0 included: a
+	// missing key reads as the zero value)
+	{
+		var lk *ssa.Lookup
+		if ex, ok := v.(*ssa.Extract); ok && ex.Index == 0 {
+			lk, _ = ex.Tuple.(*ssa.Lookup)
+		} else if l, ok := v.(*ssa.Lookup); ok && !l.CommaOk {
+			lk = l
+		}
+		if lk != nil {
+			if ld, ok := lk.X.(*ssa.UnOp); ok && ld.Op == token.MUL {
+				if g, ok := ld.X.(*ssa.Global); ok {
+					if tbl, ok := bc.p.globalIntTable(g); ok {
+						lo, hi := int64(0), int64(0)
+						for _, val := range tbl {
+							if val < lo {
+								lo = val
+							}
+							if val > hi {
+								hi = val
+							}
+						}
+						me := lterm{bc.name(v), 0}
+						bc.z.addLE(lconst(lo), me)
+						bc.z.addLE(me, lconst(hi))
+						return me
+					}
+				}
+			}
+		}
+	}
 	switch x := v.(type) {
 	case *ssa.BinOp:
 		switch x.Op {
